@@ -15,6 +15,7 @@ import DuneVerif.Proofs.C10Shift
 import DuneVerif.Proofs.C10Mul
 import DuneVerif.Proofs.C10Div
 import DuneVerif.Proofs.C10Conv
+import DuneVerif.Proofs.C10Prog
 
 namespace DV.C10
 open DV.C10.Gen
@@ -285,6 +286,214 @@ theorem hash_congr {n : Nat} {a b : List Nat} (ha : Wf n a) (hb : Wf n b) (h : v
   rw [val_inj ha hb h]
 
 example : Wf 2 (ofNat 2 0x10002) ∧ Wf 2 (add [1, 1] [1, 0]) ∧ val (ofNat 2 0x10002) = val (add [1, 1] [1, 0]) := by
+  decide
+
+/-! ## round two: numeric_limits data, all mixed operators, constructor overloads, canonical printing,
+    exact small conversions, ring laws, and operation histories (compound operators, aliasing) -/
+
+/-- `std::numeric_limits<bigunsignedint<k>>` as regenerated from the header: `radix^digits` is the modulus the
+    arithmetic theorems are about, `max() = radix^digits - 1`, `min() = 0`, and the type is declared an unsigned,
+    exact, bounded, modulo integer -/
+theorem limits_spec (k : Nat) :
+    limitsRadix ^ limitsDigits k = W (ndigits k) ∧
+    val (maxVal (ndigits k)) = limitsRadix ^ limitsDigits k - 1 ∧ val (assign (ndigits k) 0) = 0 ∧
+    limitsIsSigned = false ∧ limitsIsInteger = true ∧ limitsIsExact = true ∧ limitsIsBounded = true ∧
+    limitsIsModulo = true := by
+  have h : limitsRadix ^ limitsDigits k = W (ndigits k) := by
+    rw [W_eq]; rfl
+  exact ⟨h, by rw [h, maxVal_val'], (min_val _).2, rfl, rfl, rfl, rfl, rfl⟩
+
+example : limitsDigits 24 = 32 ∧ limitsDigits 100 = 112 ∧ limitsDigits 128 = 128 := by decide
+
+/-- the remaining mixed operators `x - y`, `x / y`, `x % y` with a built-in `y` (converted first, so `y mod W`) -/
+theorem mixed_sub_val {n : Nat} {a : List Nat} (ha : Wf n a) {y : Nat} (hy : y < 2 ^ 64) :
+    val (sub a (assign n y)) = (val a + W n - y % W n) % W n := by
+  rw [sub_val' ha (assign_wf' n y), assign_val' n hy]
+
+theorem mixed_div_val {n : Nat} {a : List Nat} (ha : Wf n a) {y : Nat} (hy : y < 2 ^ 64) (h : y % W n ≠ 0) :
+    ∃ q, div a (assign n y) = .ok q ∧ Wf n q ∧ val q = val a / (y % W n) := by
+  have := div_spec ha (assign_wf' n y) (by rw [assign_val' n hy]; exact h)
+  rwa [assign_val' n hy] at this
+
+theorem mixed_mod_val {n : Nat} {a : List Nat} (ha : Wf n a) {y : Nat} (hy : y < 2 ^ 64) (h : y % W n ≠ 0) :
+    ∃ r, mod a (assign n y) = .ok r ∧ Wf n r ∧ val r = val a % (y % W n) := by
+  have := mod_spec ha (assign_wf' n y) (by rw [assign_val' n hy]; exact h)
+  rwa [assign_val' n hy] at this
+
+/-- a built-in divisor that is a multiple of W is a zero divisor of the `bigunsignedint<k>` operation: reported -/
+theorem mixed_div_zero_reported {n : Nat} {a : List Nat} {y : Nat} (hy : y < 2 ^ 64) (h : y % W n = 0) :
+    div a (assign n y) = .mathError ∧ mod a (assign n y) = .mathError :=
+  ⟨div_zero' (assign_wf' n y) (by rw [assign_val' n hy]; exact h),
+   mod_zero' (assign_wf' n y) (by rw [assign_val' n hy]; exact h)⟩
+
+-- k = 16: the built-in 65536 is 0 modulo W and is reported as a zero divisor; 65539 divides as 3
+example : (65536 : Nat) % W 1 = 0 ∧ div [7] (assign 1 65536) = .mathError ∧
+    (65539 : Nat) % W 1 ≠ 0 ∧ div [7] (assign 1 65539) = .ok [2] ∧ mod [7] (assign 1 65539) = .ok [1] ∧
+    sub [1] (assign 1 65539) = [0xfffe] := by decide
+
+/-- the mixed operators with the built-in on the left (`y + x`, `y - x`, `y * x`, `y / x`, `y % x`) -/
+theorem mixed_rev_val {k : Nat} {x : List Nat} (hx : Wf (ndigits k) x) {y : Nat} (hy : y < 2 ^ 64) :
+    val (add (assign (ndigits k) y) x) = (y + val x) % W (ndigits k) ∧
+    val (sub (assign (ndigits k) y) x) = (y % W (ndigits k) + W (ndigits k) - val x) % W (ndigits k) ∧
+    val (mul k (assign (ndigits k) y) x) = (y * val x) % W (ndigits k) ∧
+    (val x ≠ 0 → ∃ q r, div (assign (ndigits k) y) x = .ok q ∧ mod (assign (ndigits k) y) x = .ok r ∧
+      val q = y % W (ndigits k) / val x ∧ val r = y % W (ndigits k) % val x) ∧
+    (val x = 0 → div (assign (ndigits k) y) x = .mathError ∧ mod (assign (ndigits k) y) x = .mathError) := by
+  have hw := assign_wf' (ndigits k) y
+  have hv := assign_val' (ndigits k) hy
+  refine ⟨?_, ?_, ?_, fun h => ?_, fun h => ⟨div_zero' hx h, mod_zero' hx h⟩⟩
+  · rw [add_val' hw hx, hv, Nat.mod_add_mod]
+  · rw [sub_val' hw hx, hv]
+  · rw [(mul_spec hw hx).2, hv, Nat.mod_mul_mod]
+  · obtain ⟨q, hq, _, hqv⟩ := div_spec hw hx h
+    obtain ⟨r, hr, _, hrv⟩ := mod_spec hw hx h
+    exact ⟨q, r, hq, hr, by rw [hqv, hv], by rw [hrv, hv]⟩
+
+example : Wf (ndigits 24) [3, 1] ∧ sub (assign (ndigits 24) 5) [3, 1] = [2, 0xffff] ∧
+    div (assign (ndigits 24) 0x50007) [3, 1] = .ok [4, 0] ∧ mod (assign (ndigits 24) 0x50007) [3, 1] = .ok [0xfffb, 0] := by
+  decide
+
+/-- every constructor overload: a signed built-in type rejects exactly its negative values; every non-negative
+    value of every built-in integer type of at most 64 bits (signed or unsigned, `bool`, `char`, …) gives the
+    value modulo W -/
+theorem construct_spec (n : Nat) (t : IntTy) (y : Int) (hw : t.width ≤ 64) (hy : t.holds y = true) :
+    (y < 0 → t.signed = true ∧ construct n t y = .negative) ∧
+    (0 ≤ y → ∃ v, construct n t y = .ok v ∧ Wf n v ∧ val v = y.toNat % W n) := by
+  have hp : 2 ^ t.width ≤ 2 ^ 64 := Nat.pow_le_pow_right (by omega) hw
+  have hp' : 2 ^ (t.width - 1) ≤ 2 ^ 64 := Nat.pow_le_pow_right (by omega) (by omega)
+  have hlt : y < 2 ^ 64 := by
+    unfold IntTy.holds at hy
+    split at hy
+    · have := of_decide_eq_true hy; omega
+    · have := of_decide_eq_true hy; omega
+  refine ⟨fun hneg => ?_, fun h0 => ?_⟩
+  · have hs : t.signed = true := by
+      unfold IntTy.holds at hy
+      split at hy
+      · assumption
+      · have := of_decide_eq_true hy; omega
+    exact ⟨hs, construct_signed_neg n t y hs hneg⟩
+  · have hx : y.toNat < 2 ^ 64 := by omega
+    exact ⟨_, construct_nonneg n t y h0, assign_wf' n _, assign_val' n hx⟩
+
+example : IntTy.holds ⟨true, 8⟩ (-128) = true ∧ construct 2 ⟨true, 8⟩ (-128) = .negative ∧
+    IntTy.holds ⟨false, 16⟩ 65535 = true ∧ construct 1 ⟨false, 16⟩ 65535 = .ok [0xffff] ∧
+    IntTy.holds ⟨true, 32⟩ 0x7fffffff = true ∧ construct 1 ⟨true, 32⟩ 0x7fffffff = .ok [0xffff] ∧
+    IntTy.holds ⟨false, 8⟩ (-1) = false := by decide
+
+/-- the canonical (leading zeros stripped) printed form — what the line protocol compares — still denotes the value,
+    and the full form has exactly `hexdigits` characters per digit -/
+theorem print_canon_parse {n : Nat} {a : List Nat} (ha : Wf n a) :
+    parseHexChars (printCanon a) = some (val a) ∧ (print a).length = hexdigits * n := by
+  refine ⟨?_, by rw [print_length, ha.1]⟩
+  rw [parseHexChars_eq, printCanon, parseFrom_stripZeros, parseFrom_print a 0 ha.2, Nat.zero_mul, Nat.zero_add]
+
+example : Wf 2 [0x00ab, 0] ∧ String.ofList (printCanon [0x00ab, 0]) = "ab" ∧
+    String.ofList (printCanon [0, 0]) = "0" := by decide
+
+/-- `todouble()` is exact (no digit is dropped) for every value below 2^48, whatever the width -/
+theorem todouble_exact_small {n : Nat} {a : List Nat} (ha : Wf n a) (h : val a < 2 ^ 48) :
+    todoubleN a = val a := by
+  obtain ⟨last, h1, h2⟩ := todoubleN_eq ha.2
+  by_cases hl : last = 0
+  · subst hl; rw [h1]; simp [W_zero]
+  · rcases h2 with h0 | hbig
+    · exact absurd h0 hl
+    · exfalso
+      have h3 : W 1 ≤ W last := W_le (by omega)
+      have hw : W 1 = 65536 := by decide
+      have h4 := Nat.mul_le_mul_right (2 ^ 32) h3
+      omega
+
+example : Wf 6 [0xffff, 0xffff, 0xffff, 0, 0, 0] ∧ val [0xffff, 0xffff, 0xffff, 0, 0, 0] < 2 ^ 48 ∧
+    todoubleN [0xffff, 0xffff, 0xffff, 0, 0, 0] = 2 ^ 48 - 1 := by decide
+
+/-- the commutative-ring laws, as equalities of the digit lists the operators return (consequences of the value
+    theorems and injectivity of `val`) -/
+theorem ring_laws {k : Nat} {a b c : List Nat} (ha : Wf (ndigits k) a) (hb : Wf (ndigits k) b)
+    (hc : Wf (ndigits k) c) :
+    add a b = add b a ∧ add (add a b) c = add a (add b c) ∧
+    mul k a b = mul k b a ∧ mul k (mul k a b) c = mul k a (mul k b c) ∧
+    mul k a (add b c) = add (mul k a b) (mul k a c) ∧
+    sub (add a b) b = a ∧ add (sub a b) b = a ∧
+    add a (assign (ndigits k) 0) = a ∧ mul k a (assign (ndigits k) 1) = a := by
+  have hab := add_wf ha hb
+  have hbc := add_wf hb hc
+  have mab := (mul_spec (k := k) ha hb)
+  have mba := (mul_spec (k := k) hb ha)
+  have mbc := (mul_spec (k := k) hb hc)
+  have mac := (mul_spec (k := k) ha hc)
+  have la := val_lt ha
+  have lb := val_lt hb
+  have h0 := assign_wf' (ndigits k) 0
+  have h1 := assign_wf' (ndigits k) 1
+  refine ⟨?_, ?_, ?_, ?_, ?_, ?_, ?_, ?_, ?_⟩
+  · exact val_inj hab (add_wf hb ha) (by rw [add_val' ha hb, add_val' hb ha, Nat.add_comm])
+  · refine val_inj (add_wf hab hc) (add_wf ha hbc) ?_
+    rw [add_val' hab hc, add_val' ha hb, add_val' ha hbc, add_val' hb hc, Nat.mod_add_mod, Nat.add_mod_mod,
+      Nat.add_assoc]
+  · exact val_inj mab.1 mba.1 (by rw [mab.2, mba.2, Nat.mul_comm])
+  · refine val_inj (mul_spec mab.1 hc).1 (mul_spec ha mbc.1).1 ?_
+    rw [(mul_spec mab.1 hc).2, mab.2, (mul_spec ha mbc.1).2, mbc.2, Nat.mod_mul_mod, Nat.mul_mod_mod,
+      Nat.mul_assoc]
+  · refine val_inj (mul_spec ha hbc).1 (add_wf mab.1 mac.1) ?_
+    rw [(mul_spec ha hbc).2, add_val' hb hc, add_val' mab.1 mac.1, mab.2, mac.2, Nat.mul_mod_mod, ← Nat.add_mod,
+      Nat.mul_add]
+  · refine val_inj (sub_wf hab hb) ha ?_
+    rw [sub_val' hab hb, add_val' ha hb]
+    by_cases h : val a + val b < W (ndigits k)
+    · rw [Nat.mod_eq_of_lt h]
+      have e : val a + val b + W (ndigits k) - val b = val a + W (ndigits k) := by omega
+      rw [e, Nat.add_mod_right, Nat.mod_eq_of_lt la]
+    · rw [Nat.mod_eq_sub_mod (Nat.le_of_not_lt h),
+        Nat.mod_eq_of_lt (by omega : val a + val b - W (ndigits k) < W (ndigits k))]
+      have e : val a + val b - W (ndigits k) + W (ndigits k) - val b = val a := by omega
+      rw [e, Nat.mod_eq_of_lt la]
+  · refine val_inj (add_wf (sub_wf ha hb) hb) ha ?_
+    rw [add_val' (sub_wf ha hb) hb, sub_val' ha hb, Nat.mod_add_mod]
+    have e : val a + W (ndigits k) - val b + val b = val a + W (ndigits k) := by omega
+    rw [e, Nat.add_mod_right, Nat.mod_eq_of_lt la]
+  · refine val_inj (add_wf ha h0) ha ?_
+    rw [add_val' ha h0, assign_val' _ (by omega), Nat.zero_mod, Nat.add_zero, Nat.mod_eq_of_lt la]
+  · refine val_inj (mul_spec ha h1).1 ha ?_
+    rw [(mul_spec ha h1).2, assign_val' _ (by omega), Nat.mul_mod_mod, Nat.mul_one, Nat.mod_eq_of_lt la]
+
+example : Wf (ndigits 32) [0xffff, 0x8000] ∧ Wf (ndigits 32) [0x0002, 0xffff] ∧ Wf (ndigits 32) [0xfffe, 0x7fff] ∧
+    mul 32 [0xffff, 0x8000] (add [0x0002, 0xffff] [0xfffe, 0x7fff]) =
+      add (mul 32 [0xffff, 0x8000] [0x0002, 0xffff]) (mul 32 [0xffff, 0x8000] [0xfffe, 0x7fff]) := by decide
+
+/-! ### operation histories -/
+
+/-- ALL HISTORIES.  For every width `k`, every pair of well-formed start values and every program `p` of compound
+    statements on the two variables (`d op= s` with `d`, `s` possibly the same variable; mixed `d = d op y`; `++d`;
+    `d = ~d`; shifts; copies), running the digit-loop model gives, statement by statement, exactly the
+    observations (new value of the destination, or the reported zero divisor) and the final state of the machine
+    that computes with plain natural numbers modulo `2^(bits·n)`; both reject exactly the same (protocol-invalid)
+    programs; and the variables stay well-formed.  Proved by induction over the program. -/
+theorem prog_refines {k : Nat} (p : List POp) (r : Regs) (hr : WfRegs (ndigits k) r) :
+    (run k r p).map (fun q => (q.1.map Res.abs, q.2.abs)) = specRun (ndigits k) r.abs p ∧
+    ∀ os r', run k r p = some (os, r') → WfRegs (ndigits k) r' := run_refines p r hr
+
+-- a += a; a /= a; b -= a; b %= b (b = 0: reported, b unchanged); a = a << 17; b = b + 65535; a /= b with k = 40 (three digits)
+example : WfRegs (ndigits 40) ⟨[0xffff, 0x7fff, 0x0001], [0, 0, 0]⟩ ∧
+    run 40 ⟨[0xffff, 0x7fff, 0x0001], [0, 0, 0]⟩
+      [.bin .add .a .a, .bin .div .a .a, .bin .sub .b .a, .bin .mod .b .b, .bin .bxor .b .b, .bin .mod .b .b,
+       .shl .a 17, .binU .add .b 0xffff, .bin .div .a .b] =
+    some ([.ok [0xfffe, 0xffff, 0x0002], .ok [1, 0, 0], .ok [0xffff, 0xffff, 0xffff], .ok [0, 0, 0], .ok [0, 0, 0],
+           .mathError, .ok [0, 2, 0], .ok [0xffff, 0, 0], .ok [2, 0, 0]],
+          ⟨[2, 0, 0], [0xffff, 0, 0]⟩) := by decide
+
+/-- self-aliasing compound division (the case the unrepaired code never returned from): `a /= a` is 1 and
+    `a %= a` is 0 for every non-zero `a`; for `a = 0` the zero divisor is reported -/
+theorem div_mod_self {n : Nat} {a : List Nat} (ha : Wf n a) :
+    (val a ≠ 0 → ∃ q r, div a a = .ok q ∧ mod a a = .ok r ∧ val q = 1 ∧ val r = 0) ∧
+    (val a = 0 → div a a = .mathError ∧ mod a a = .mathError) := by
+  refine ⟨fun h => ?_, fun h => ⟨div_zero' ha h, mod_zero' ha h⟩⟩
+  obtain ⟨q, hq, _, hqv⟩ := div_spec ha ha h
+  obtain ⟨r, hr, _, hrv⟩ := mod_spec ha ha h
+  exact ⟨q, r, hq, hr, by rw [hqv, Nat.div_self (Nat.pos_of_ne_zero h)], by rw [hrv, Nat.mod_self]⟩
+
+example : Wf 2 [7, 0] ∧ val [7, 0] ≠ 0 ∧ div [7, 0] [7, 0] = .ok [1, 0] ∧ mod [7, 0] [7, 0] = .ok [0, 0] := by
   decide
 
 end DV.C10
